@@ -336,6 +336,14 @@ def check_C03(ctx):
             call = 'RUN f WITH ' + ', '.join(str(5 + j) for j in range(na_)) + ' END'
             for src in (hdr + 'x1 := ' + call + '\n', hdr + 'PROGRAM g IN q DO x0 := q END\nx1 := RUN g WITH ' + call + ' END\n'):
                 cases.append({'defs': None, 'main': None, 'mainf': b'm', 'files': {b'm': src.encode()}, 'layout': 'arity', 'text': {'m': src}})
+    # the built-in operators called by name, with every operand shape (only `variable, literal` is the built-in form; whatever
+    # else is accepted must still be well-formed code)
+    for nm in ('__INC__', '__DEC__'):
+        for args in ('a , 3', 'a , b', '7 , 3', '3 , a', 'RUN __INC__ WITH a , 1 END , 2', 'a , RUN __INC__ WITH a , 1 END', 'a', 'a , 1 , 2', ''):
+            for ctxt in ('a := 5 ; b := 2 ; c := RUN %s WITH %s END\n', 'PROGRAM p IN a , b DO c := RUN %s WITH %s END END\nx := RUN p WITH 1 , 2 END\n',
+                         'DEFINE <ID> PLUS <ID> AS RUN %s WITH %s END END DEFINE\na := 1 ; b := 2 ; c := a PLUS b\n'):
+                src = ctxt % (nm, args)
+                cases.append({'defs': None, 'main': None, 'mainf': b'm', 'files': {b'm': src.encode()}, 'layout': 'arity', 'text': {'m': src}})
     # ports whose names differ only in letter case, in routines whose frame holds nothing but the ports
     for names in (['n', 'N'], ['ab', 'aB', 'Ab'], ['q', 'Q', 'q0', 'Q0'], ['x0', 'X0']):
         for body in ('', names[-1] + ' := ' + names[0], names[0] + ' := 1'):
@@ -527,6 +535,25 @@ def check_C16(ctx):
                 sm = model(ctx, ['SEM %s 400000' % files_req(b'm', {b'm': t.encode()})], timeout=120)[0]
                 if not is_crash(sm) and fields(sm).get('status') == 'halted':
                     ctx.violation('loop-program-does-not-halt', 'an accepted source without WHILE / GOTO did not halt within 3 000 000 instructions; the reference semantics halts', {'m': t})
+    # one jump across more than 2^15 and 2^16 instructions (a LOOP / WHILE body or a forward GOTO over a long straight-line
+    # block; the bound is 0, so the block is never executed): the operand of a jump is as wide as the program is long
+    for nstm in (2300, 4500):
+        blk = ' ; '.join(['x1 := RUN f WITH 1 , 2 , 3 , 4 , 5 , 6 END'] * nstm)
+        head = 'PROGRAM f IN a , b , c , d , e , g DO x0 := a END\nx0 := 0 ;\n'
+        for kind, src in (('LOOP', head + 'LOOP x0 DO ' + blk + ' END ;\nx2 := 7\n'), ('WHILE', head + 'WHILE x0 != 0 DO ' + blk + ' END ;\nx2 := 7\n'),
+                          ('GOTO', head + 'GOTO e ;\n' + blk + ' ;\ne : x2 := 7\n')):
+            o = impl(ctx, ['RUN %s 400000' % files_req(b'm', {b'm': src.encode()})], timeout=300)[0]
+            ctx.cov['evaluations'] += 1
+            desc = {'m': '%s over a block of %d call statements on one line (generated: see checks/semprops.py)' % (kind, nstm), 'statements': nstm, 'kind': kind}
+            if is_crash(o):
+                ctx.violation('vm-crash', 'a program with one long jump crashed: ' + o[:200], desc)
+            elif fields(o).get('ok') == '1':
+                ev = dict(kv for (_, e_) in envs(fields(o)['acts']) for kv in e_.items()) if fields(o).get('done') == '1' else {}
+                if fields(o).get('done') != '1' or ev.get('x2', 0) != 7 or ev.get('x1', 0) != 0:
+                    ctx.violation('loop-program-does-not-halt' if fields(o).get('done') != '1' else 'loop-iterations',
+                                  'a %s with bound 0 over a block of %d statements: done=%s, x1=%s, x2=%s (expected: halts at once, x1 = 0, x2 = 7)' % (
+                                      kind, nstm, fields(o).get('done'), ev.get('x1'), ev.get('x2')), desc)
+                ctx.nontrivial('long-jump-%s-%d' % (kind, nstm))
     ctx.cov['mutated_loop_sources_accepted'] = len(acc)
     ctx.cov['rule'] = ('accepted sources in all layouts plus all attempts at self / forward / mutual reference (also across files and redefinitions); on the implementation: '
                        'EXEC targets vs routine order, maximum activation-stack depth over a run ≤ #programs + 1, LOOP-only sources halt; non-trivial = recursion attempt or halting LOOP-only program')
